@@ -207,6 +207,9 @@ func OSOpenFile(name string, flag int, perm os.FileMode) (*File, error) {
 //
 //go:norace
 func (f *File) Write(p []byte) (int, error) {
+	if f == nil {
+		return 0, os.ErrInvalid // like (*os.File)(nil).Write
+	}
 	t, errno, short, dead := fsPoint("write", f.File.Name(), len(p))
 	if t == nil {
 		return f.File.Write(p)
@@ -244,6 +247,9 @@ func (f *File) WriteString(x string) (int, error) { return f.Write([]byte(x)) }
 
 // ReadFrom is hidden so that io.Copy style helpers use Write.
 func (f *File) ReadFrom(r io.Reader) (int64, error) {
+	if f == nil {
+		return 0, os.ErrInvalid
+	}
 	buf, err := io.ReadAll(r)
 	if err != nil {
 		return 0, err
@@ -256,6 +262,9 @@ func (f *File) ReadFrom(r io.Reader) (int64, error) {
 //
 //go:norace
 func (f *File) Close() error {
+	if f == nil {
+		return os.ErrInvalid // like (*os.File)(nil).Close
+	}
 	t, errno, _, dead := fsPoint("close", f.File.Name(), 0)
 	if t == nil {
 		return f.File.Close()
